@@ -305,7 +305,7 @@ func RefNBT(b []byte, pos int, tag byte, depth int) (status, end int) {
 	i32 := func(p int) int {
 		return int(int32(uint32(b[p])<<24 | uint32(b[p+1])<<16 | uint32(b[p+2])<<8 | uint32(b[p+3])))
 	}
-	if depth > 4 {
+	if depth > 8 {
 		return NBTOther, pos
 	}
 	fixed := 0
